@@ -27,6 +27,22 @@ Theorem C06_positional_enum_index_is_value : forall ms i,
   nth_error (exported_int64 ms) i = Some (Some (Z.of_nat i)).
 Proof. exact positional_conversion_is_identity. Qed.
 
+(** every named Go type is emitted in the file assigned to its package: [dart_out_file] (the model of
+    analysis.NewLinker, compared on every run with the file each class, union and enum is found in) depends on the
+    package path only, and names a file of the output directory itself *)
+Theorem C06_output_files_are_flat : forall root pkg_path, no_slash (dart_out_file root pkg_path) = true.
+Proof. exact out_file_is_flat. Qed.
+
+Theorem C06_output_file_examples :
+  dart_out_file "/home/u/go/src/example.com/org/models" "example.com/org/models" = "models.dart"
+  /\ dart_out_file "/home/u/go/src/example.com/org/models" "example.com/org/models/sub/x" = "models_sub_x.dart"
+  /\ dart_out_file "/home/u/go/src/example.com/org/models" "math/big" = "stdlib_math_big.dart"
+  /\ dart_out_file "/tmp/work/mod" "example.com/org/models" = "stdlib_example.com_org_models.dart".
+Proof. exact out_file_examples. Qed.
+
+
 Print Assumptions C06_keys_and_constructor_arguments.
 Print Assumptions C06_enum_value_table_roundtrip.
 Print Assumptions C06_positional_enum_index_is_value.
+Print Assumptions C06_output_files_are_flat.
+Print Assumptions C06_output_file_examples.
